@@ -187,7 +187,7 @@ func (m *MultiRun) step() bool {
 			}
 		case "env":
 			seen := w.Store.Writes()
-			a := w.Env.Step(m.Rng.Intn(6))
+			a := w.Env.Step(m.Rng.Intn(12))
 			if a == "" {
 				// idle with respect to the state it looked at: a write that lands meanwhile re-enables it
 				m.envIdleAt = seen
